@@ -33,8 +33,9 @@ A *case* is a structural tuple, never source text.  Four families::
                priva  {% set _pv = "v" %}
                ifa    {% if eg %}{% set ifv = "I" %}{% else %}{% set ifn = "N" %}{% endif %}
                fora   {% for q in [1] %}{% set forv = "F" %}{% endfor %}
-               impas  {% import "h2" as sub %}              and the body prints [{{ sub.deep() }}]
-               impfrom {% from "h2" import deep with context %}   and the body prints /{{ deep() }}/
+               impas  {% set sub = "s" %}{% import "h2" as sub %}              and the body prints [{{ sub.deep() }}]
+               impfrom {% set deep = "d" %}{% from "h2" import deep with context %}   and the body prints /{{ deep() }}/
+                      (the name is assigned first so that the export bookkeeping has something to undo)
                The helper body always ends with H<rv.loc.eg.mg.hg> (each empty when not visible).
     how        "module" (Template.module), "make_module" (make_module({"rv": "R2"})), for templates obtained by
                "get" (get_template) or "fs" (from_string):  how in HOWS
@@ -208,9 +209,9 @@ def helper_source(shape):
     if "fora" in shape:
         s.append('{% for q in [1] %}{% set forv = "F" %}{% endfor %}')
     if "impas" in shape:
-        s.append('{% import "h2" as sub %}')
+        s.append('{% set sub = "s" %}{% import "h2" as sub %}')
     if "impfrom" in shape:
-        s.append('{% from "h2" import deep with context %}')
+        s.append('{% set deep = "d" %}{% from "h2" import deep with context %}')
     if "impas" in shape:
         s.append("[{{ sub.deep() }}]")
     if "impfrom" in shape:
@@ -258,7 +259,8 @@ def exports(shape):
         out["top"] = "value"
     if "ifa" in shape:
         out["ifv"] = "value"
-    # CALIBRATED: a template's own imports (sub, deep) are not re-exported
+    # CALIBRATED: a template's own imports (sub, deep) are not re-exported, also when the name was
+    # assigned before and is re-bound by the import
     return out
 
 
